@@ -9,7 +9,7 @@ D5 takes effect: setter -> atomic field -> snapshot() field -> get_status key, s
 D6 the stdin and socket entry points agree (same pre-checks, same codes, same handle_method call for non-subscription methods).
 """
 from ..absint import AbsInt, Entry, Num
-from ..ctx import bool_branches, is_call, is_field, result_arms, sname
+from ..ctx import bool_branches, is_call, is_field, result_arms, sname, some_of
 from ..expr import show, strip_old, walk
 from ..pathcond import PathA, calls_to
 from . import panicfree
@@ -203,7 +203,7 @@ def d3_one_response_iff_id(ctx):
             if s["k"] == "assign" and s["p"]["l"] == 0 and not s["p"]["proj"] and s["rv"]["k"] == "agg":
                 (nones if s["rv"].get("vn") == "None" else somes).append((bi, si, s))
     empty = pa.find(lambda a: is_call(a, name_contains="str>::is_empty"))
-    notif = pa.find(lambda a: is_call(a, name_contains="Option::<T>::is_none") and any(is_field(x, "id") for x in walk(a)))
+    notif = [(x, pa.bdd.NOT(fm)) for (x, fm) in some_of(pa, lambda x: any(is_field(y, "id") for y in walk(x)))]
     ok = bool(empty) and bool(notif) and len(nones) == 2
     if ok:
         for (bi, si, s) in nones:
